@@ -86,6 +86,33 @@ def run():
 
 
 run()
+# ---- rotating frame <-> laboratory frame of a stored evolution: explicit phases, and there-and-back is the identity -----------------
+try:
+    from quantarhei.qm.propagators.dmevolution import ReducedDensityMatrixEvolution
+    rng2 = numpy.random.default_rng(11)
+    with qr.energy_units("1/cm"):
+        Hr = qr.Hamiltonian(data=[[0.0, 0.0, 0.0], [0.0, 12000.0, 60.0], [0.0, 60.0, 12300.0]])
+    Hr.set_rwa([0, 1])
+    tt = qr.TimeAxis(0.0, 7, 3.0)
+    r0 = qr.ReducedDensityMatrix(dim=3)
+    ev = ReducedDensityMatrixEvolution(tt, r0)
+    dat = rng2.standard_normal((7, 3, 3)) + 1j * rng2.standard_normal((7, 3, 3))
+    ev.data[:, :, :] = dat
+    ev.is_in_rwa = True
+    om = numpy.array(Hr.get_RWA_skeleton())
+    ev.convert_from_RWA(Hr)
+    want = numpy.array([[[numpy.exp(-1j * (om[a] - om[b]) * t) * dat[i, a, b] for b in range(3)] for a in range(3)]
+                        for i, t in enumerate(tt.data)])
+    if abs(numpy.array(ev.data) - want).max() > 1e-10:
+        bad.append("convert_from_RWA: elements do not get the phase exp(-i (W_a - W_b) t): max deviation %.3e" % abs(numpy.array(ev.data) - want).max())
+    if ev.is_in_rwa:
+        bad.append("convert_from_RWA leaves the evolution flagged as being in the rotating frame")
+    ev.convert_to_RWA(Hr)
+    if abs(numpy.array(ev.data) - dat).max() > 1e-10:
+        bad.append("convert_from_RWA followed by convert_to_RWA is not the identity: max deviation %.3e" % abs(numpy.array(ev.data) - dat).max())
+except Exception as e:      # noqa
+    bad.append("rotating-frame conversion raised %s: %s" % (type(e).__name__, str(e)[:120]))
+
 for b in bad:
     print("VIOLATED:", b)
 print("C02 oracle: %d violations (largest error/bound ratio %.3f)" % (len(bad), worst[0]))
